@@ -231,8 +231,8 @@ def r3_2(ctx, rc):
                             problems += needs(('F', {
                                 C + '.created_file',
                                 C + '.created_norm_cased_file'}, 'old'))
-                        elif roles == {'old'} and f not in \
-                                R.public_static_methods:
+                        elif roles == {'old'} and not _static_api_only(
+                                ctx, f):
                             problems += needs(
                                 ('F', {ex + '.is_file'}, None),
                                 ('F', {ex + '.is_cache_file'}, None))
@@ -295,6 +295,21 @@ def r3_2(ctx, rc):
                                  key=key)
                 else:
                     rc.ok({'sink': key, 'origins': sorted(tags)}, key=key)
+
+
+def _static_api_only(ctx, f, seen=None):
+    """f is a public static method (clean: no build is running), or a
+    private helper all of whose callers are."""
+    R = ctx.R
+    if f in R.public_static_methods:
+        return True
+    seen = seen or set()
+    if f.qualname in seen or f.is_public:
+        return False
+    seen.add(f.qualname)
+    callers = [cf for cf, _ in ctx.prog.callers().get(f.qualname, [])]
+    return bool(callers) and all(
+        _static_api_only(ctx, cf, seen) for cf in callers)
 
 
 def _getter_roles(ctx, arg, func, cn, getter):
